@@ -35,9 +35,13 @@ def c03(c):
         "takeOnConnected + callback, the failed-dial close, the close notification through the Async FIFO",
         "the kernel's verdict on a non-blocking connect (EPOLLOUT without / with an error condition, SO_ERROR) is an action of the environment: "
         "'really established' means the kernel reported it (c03_dial_truthful); the real-engine tier cross-checks with getpeername",
-        "UDP peer sessions (udpConn.Close, sessions created by readUDP) are not modelled; the real-engine tier exercises them (racing closers, "
-        "Close in the data / close / open handler, explicit and engine-wide read timeout, Stop) with the oracle and the log checker - their logs "
-        "are open / close / close-returned / operation logs like any connection's",
+        "UDP: the listener's session table is modelled (UdpSessions.v: create on the first datagram of an address, same address -> same "
+        "session until its teardown removes it, then a new one) and every session is proved to be a run of the per-connection model "
+        "(c03_udp_session_is_connection), so at-most-once / open-before-close / first-cause hold per session; creation (map entry, idle timer, "
+        "open notification) is ONE step of the model although the code arms the idle timer before the open handler; the listener's own "
+        "teardown closing all sessions is not forced by the model (c03_udp_listener_close_partial). UDP client connections (net.DialUDP + "
+        "AddConn, DialAsync(\"udp\")) are ordinary connections of the model; readUDP's use of Conn.closeErr as a scratch variable is not "
+        "modelled - the model's notified error is the cause, and both tiers compare the implementation's notification AND IsClosed() with it",
         "the engine's descriptor table is shared by all connections; the model is about ONE connection, so the interplay of two connections "
         "through a reused descriptor number (scenario fd-reused-after-close-in-onopen) is checked by the oracle only",
         "a dial whose registration fails is reported once, by DialAsync's return value (c03_rejected_dial_reported_once; before /repo eae881e the "
@@ -67,13 +71,17 @@ MANIFEST = {
              "c03_open_before_close, c03_notified_was_opened, c03_first_cause (the notified error is that of the action that flipped the flag), "
              "c03_idempotent, c03_after_close / c03_after_flag (closed indication, no syscall, nothing changes), c03_dial_once, c03_dial_truthful, "
              "c03_model_logs_are_legal / c03_model_logs_complete (the executable checker accepts every projection of a model run), "
-             "c03_rejected_dial_reported_once, and one documented non-guarantee (c03_close_can_precede_success_callback). Every run: thousands of seeded schedules of the "
+             "c03_rejected_dial_reported_once, one documented non-guarantee (c03_close_can_precede_success_callback), and for UDP listeners "
+             "(UdpSessions.v) c03_udp_session_is_connection, c03_udp_at_most_once, c03_udp_open_before_close, c03_udp_first_cause, "
+             "c03_udp_data_after_open, c03_udp_one_session_per_address, c03_udp_datagram_routing, c03_udp_listener_close_partial. Every run: thousands of seeded schedules of the "
              "real code on simulated descriptors (registration ok / epoll failure / table overflow / closed by the open handler; backlog; armed timers; 2-7 threads) compared event by "
              "event and counter by counter with the model; ~200 real-engine connections per round (accepted / added / dialed x 13 terminations + 5 dial "
-             "outcomes x LT / ET / ONESHOT / ET+AsyncRead, rejected registrations, UDP peer sessions, a reused descriptor number) checked by the oracle (exactly one OnClose after OnOpen, allowed cause, ops after Close, "
+             "outcomes x LT / ET / ONESHOT / ET+AsyncRead, rejected registrations, a reused descriptor number; origins also UDP clients added with AddConn and dialed with DialAsync(udp), two "
+             "thirds of all connections after a data exchange in both directions; UDP listener sessions incl. sequential table histories "
+             "replayed through the extracted table model) checked by the oracle (exactly one OnClose after OnOpen, allowed cause, ops after Close, "
              "descriptor gone in /proc/self/fd, dial callback once and truthful by getpeername) and by the extracted checker.",
         note="Trusted: Coq kernel, extraction, OCaml driver, Go harness, overlay (scheduler, shim kernel, constructors), the mirror of the poller's "
-             "writability dispatch in the simulated tier. UDP peer sessions and the two-connection descriptor-reuse scenario are tested, not modelled. "
+             "writability dispatch in the simulated tier. The two-connection descriptor-reuse scenario is tested, not modelled. "
              "Not covered: conn_std.go, poller_kqueue.go. Found while building this check and fixed in /repo: D35 (rejected dial reported twice, double "
              "wgConn.Done), D36 (Close inside the open handler of a UDP session deadlocks the poller), D37 (a connection closed by its open handler "
              "knocks another connection with the same descriptor number out of the table).",
